@@ -175,6 +175,27 @@ def main():
         else:
             why = "; ".join(sorted({(o.get("detail") or o["verdict"])[:120] for o in obs if o["verdict"] != "unsat"}))
             undecided.append(f"{oid}: {why}")
+    # a path of a CHANGED function that the executor cannot follow any more ends before its exit clauses are generated: the clauses that
+    # were discharged for the baseline source of that function and are not discharged now are reported the same way (DESIGN 2.6)
+    changed = {cid for cid in cids if results[cid].get("ok") and base_prop["sha"].get(cid) not in (None, sha_now.get(cid))}
+    already = {oid for oid, _ in failed_clauses}
+    for oid in base_prop["clauses"]:
+        cid = oid.split(":")[0]
+        if cid not in changed or oid in already:
+            continue
+        obs_now = clauses.get(oid)
+        if obs_now is not None and all(o["verdict"] == "unsat" for o in obs_now) \
+                and not any(o["kind"] == "unsupported" and o["id"].split(":")[0] == cid for os_ in clauses.values() for o in os_):
+            continue
+        if obs_now is not None and any(o["verdict"] == "sat" for o in obs_now):
+            continue            # (already among the failed clauses)
+        stoppers = [o for os_ in clauses.values() for o in os_ if o["kind"] == "unsupported" and o["id"].split(":")[0] == cid]
+        if obs_now is None or not all(o["verdict"] == "unsat" for o in obs_now) or stoppers:
+            if stoppers or obs_now is None:
+                failed_clauses.append((oid, (obs_now or []) + stoppers[:2]))
+                already.add(oid)
+    if changed:
+        undecided[:] = [u for u in undecided if u.split(":")[0] not in changed or not any(f[0].split(":")[0] == u.split(":")[0] for f in failed_clauses)]
 
     # ---- bounded contract search on the real code (T3 per function): always for failing contracts,
     #      and for every contract with a generator (this is the labelled bounded stand-in / cross-check)
